@@ -104,3 +104,6 @@ def run(ctx):
     QE10.k15_edges(ctx)
     ctx.floor("K14", 4)
     ctx.floor("K15", 3)
+    LK.k2_spec_roots(ctx, K, modules=("bijection",))
+    SKK.w4_pack_iteration(ctx)
+    ctx.floor("W4", 1)
